@@ -23,7 +23,8 @@ CLAIMS = {
             "§5 C03, §11.3", "control-dependence guards + origin dataflow + lock regions"),
     "C04": ("PAIR-7 direction agreement of the 20 positioning methods of TwoLevelIterator / FilesEntryIterator / MergingIterator / "
             "DatabaseIterator, PAIR-8 reversal repositions the inner iterator, PAIR-11 a re-loaded child iterator is positioned before use, "
-            "KEY-1 key order, GRD-3 sequence filter of the client iterator; NOT the cursor-vs-sorted-map equivalence", "§6/§11.3 C04",
+            "ITR-1 / ITR-2 state discipline of the client iterator's collapse loops (invisible records change nothing, every visible record rewrites the "
+            "cache, exact key-boundary tests), KEY-1 key order, GRD-3 sequence filter of the client iterator; NOT the cursor-vs-sorted-map equivalence", "§6/§11.3 C04",
             "sibling direction table + must-pass-through"),
     "C05": ("LCK-2 atomic capture of (sequence, memtable, immutable memtable, version) under the mutex; ORD-8/ORD-8b publication after the "
             "unlocked WAL+memtable section; ORD-9 rotation without release point and never over a pending immutable memtable; OWN-2/OWN-3 "
